@@ -39,14 +39,19 @@ def sc_map(B, C, D, um, uv, uw, mode, split=False):
     B.assume(t > 0)
     thr = float(m.mean_var_update_threshold)
     if split:
-        # the wrapper must reduce a list of statistics: split s into two addends
-        s2, SP2 = sym_stats(B, C, D, "q")
-        B.assume(SP2["t"] > 0)
-        stats = [s, s2]
-        n = [n[c] + SP2["n"][c] for c in range(C)]
-        F = [[F[c, d] + SP2["F"][c, d] for d in range(D)] for c in range(C)]
-        S = [[S[c, d] + SP2["S"][c, d] for d in range(D)] for c in range(C)]
-        t = t + SP2["t"]
+        # the wrapper must reduce a list of statistics: `split` further addends
+        stats = [s]
+        n = [n[c] for c in range(C)]
+        F = [[F[c, d] for d in range(D)] for c in range(C)]
+        S = [[S[c, d] for d in range(D)] for c in range(C)]
+        for k in range(int(split)):
+            s2, SP2 = sym_stats(B, C, D, "q%d" % k)
+            B.assume(SP2["t"] > 0)
+            stats.append(s2)
+            n = [n[c] + SP2["n"][c] for c in range(C)]
+            F = [[F[c][d] + SP2["F"][c, d] for d in range(D)] for c in range(C)]
+            S = [[S[c][d] + SP2["S"][c, d] for d in range(D)] for c in range(C)]
+            t = t + SP2["t"]
     else:
         stats = [s]
         F = [[F[c, d] for d in range(D)] for c in range(C)]
@@ -100,7 +105,8 @@ def sc_map(B, C, D, um, uv, uw, mode, split=False):
 def job_map(P, C, D, mode):
     for um, uv, uw in itertools.product((False, True), repeat=3):
         P.run("%s-m%dv%dw%d" % (mode, um, uv, uw), sc_map, dict(C=C, D=D, um=um, uv=uv, uw=uw, mode=mode), validate=1)
-    P.run("%s-split" % mode, sc_map, dict(C=C, D=D, um=True, uv=False, uw=True, mode=mode, split=True), validate=1)
+    for k in (1, 2):
+        P.run("%s-split%d" % (mode, k + 1), sc_map, dict(C=C, D=D, um=True, uv=False, uw=True, mode=mode, split=k), validate=1)
 
 
 def jobs(tier):
